@@ -34,6 +34,13 @@ pub fn main(args: &[String]) -> ! {
     }
     if args[0] == "envprobe" {
         // one line of JSON: item -> digest, computed in the environment this process was given
+        let history = std::env::var("ITV_PROBE_HISTORY").unwrap_or_default();
+        if history == "warm" {
+            crate::envprobe::warm_up(Path::new(&args[1]));
+        }
+        if history == "twice" {
+            let _ = crate::envprobe::compute(Path::new(&args[1]));
+        }
         let map = crate::envprobe::compute(Path::new(&args[1]));
         println!("{}", serde_json::to_string(&map).unwrap());
         std::process::exit(0);
